@@ -164,13 +164,19 @@ pub fn analyze_dir(
             .path();
 
         if file_path.is_dir() {
-            optimization_locations.extend(analyze_dir(
+            //Merge the findings of the nested directory into the findings gathered so far
+            for (target, mut matches) in analyze_dir(
                 file_path
                     .as_os_str()
                     .to_str()
                     .expect("Could not get nested dir"),
                 optimizations.clone(),
-            ))
+            ) {
+                optimization_locations
+                    .entry(target)
+                    .or_insert(vec![])
+                    .append(&mut matches);
+            }
         } else {
             let file_name = file_path
                 .file_name()
